@@ -34,16 +34,29 @@ class C05(Prop):
                   "< B on a block not reachable from tail): every COMPLETED push call has its identity in a published slot of exactly one block, "
                   "and that block is still owned (reachable from tail, or from the clearer that detached it and has not read it yet) or else the "
                   "value has been handed to a clear - never both, at most once; retired blocks are complete. C05_conservation_on_model_runs: "
-                  "known_class c = None implies this invariant at the end of the model's run of case c. The open finding is a theorem "
+                  "known_class c = None implies this invariant at the end of the model's run of case c. (5) C05_snapshot_sees_completed, every "
+                  "schedule incl. concurrent clears and late claims: every value published in a block reachable from the tail pointer a "
+                  "data_with call loaded at its first step (530) is, at every later configuration, already handed to the callback or still "
+                  "ahead of the walking thread, and once the call has returned it is in the slices the call was handed. (6) C05_is_empty_sound "
+                  "(code after fix 1a8142c), every schedule: is_empty = true implies that nothing published when it loaded the tail (520) is in "
+                  "the head block or its successor, and that either the head has no successor or more than B threads exist; hence with at "
+                  "most B threads nothing published at that moment is anywhere in the chain; is_empty = false implies some slot is "
+                  "published. (7) C05_block_order: the slice handed out at 506 is slot 0..len-1 and slot order is claim order (fetch_add "
+                  "returns and bumps the write index, which never decreases and bounds every claimed index). (8) C05_spec_ok_sound: Prop-level "
+                  "meaning of spec_ok = true for the clauses without trace positions; C05_spec_no_double_clear_on_model: clause S1 holds on the "
+                  "model's run of every case. The open finding is a theorem "
                   "(C05_late_claim_refutes) and so are the two repaired defects (the model of the code before each fix violates spec_ok outside "
                   "the late-claim class, the model after the fix does not). Tied to /repo by (i) replaying generated schedules on the real "
                   "AtomicBucket<Val> through yield points at every shared-memory access and comparing step trace, every slice handed to every "
                   "callback, every is_empty result and a final sequential read, with the executable property spec_ok evaluated on the "
                   "implementation's outputs, and (ii) a free-running stress engine on real threads judged by the same property.")
-    level_note = ("NOT proved: what a SNAPSHOT must show under concurrency (C05_snapshot_sees_completed) and C05_is_empty_sound (needs fewer "
-                  "than B threads), and C05_spec_ok_on_model / C05_spec_ok_iff (that the trace-level checker spec_ok accepts every model run "
-                  "outside the class - not even for sequential cases - and what its acceptance means at Prop level): these clauses are checked "
-                  "by evaluation only (spec_ok on every replayed schedule and the stress oracle). The conservation theorem speaks about "
+    level_note = ("NOT proved: C05_spec_ok_on_model in full - that the trace-level checker spec_ok accepts every model run outside the "
+                  "class (only its clause S1 is proved on the model, for every case; not the sequential case either) - and a Prop-level reading "
+                  "of the position-based clauses of spec_ok (written-before-read, snapshot completeness, claim order): those are tied to the "
+                  "configuration-level theorems only by evaluation (spec_ok on every replayed schedule, model agreeing step by step, and the "
+                  "stress oracle). C05_is_empty_sound needs at most B threads for its strong reading; with more, is_empty = true can miss "
+                  "completed pushes deeper than the head's successor (stated in the theorem). "
+                  "The conservation theorem speaks about "
                   "configurations (slots, ownership, per-thread delivered lists); its reading as 'completed = delivered (+) resident' uses "
                   "C05_no_fabrication / R3 (every completed push call has a published slot). Open known finding C05-late-claim (class 1 = the "
                   "model's run of the case sets the ghost flag `late`; includes benign instances where the clearer still waits for the late "
